@@ -102,3 +102,13 @@ package jitterbuffer
 //@            jb.packets.next, jb.packets.length, jb.packets.Q, all node.*
 //@   ensures nothing_left: forall k uint16 :: jb.packets.Q[k] == nil
 //@   ensures reset: resetState ==> jb.state == Buffering && jb.minStartCount == 50
+//@
+//@ # ---- the interceptor's RTP reader (property C02): never reports more bytes than the caller's buffer holds,
+//@ # and only the bytes that were read are parsed
+//@ func (*ReceiverInterceptor).BindRemoteStream$1
+//@   requires inv: i.buffer != nil && jbInv(i.buffer)
+//@   modifies *
+//@   ensures read_once: calls("reader.Read") == 1
+//@   ensures read_error_returned: callres("reader.Read", 2) != nil ==> result2 == callres("reader.Read", 2)
+//@   ensures within_buffer: result2 == nil ==> 0 <= result0 && result0 <= len(b)
+//@   ensures parsed_what_was_read: calls("Unmarshal") <= 1 && (calls("Unmarshal") == 1 ==> len(callarg("Unmarshal", 1)) == callres("reader.Read", 0))
